@@ -130,7 +130,7 @@ Check C18_recv_inputs_bounded : forall now magic handles np lp mp timeout notify
   run dbg s0 ops = Ok (s, evs) ->
   Z.of_nat (length (u_recv_inputs s)) <= Z.max (2 * mp) (Z.of_N MAX_DECODED_INPUTS) + 1.
 
-(* SESSION HALF (session-core model, coq/P2P.v; space of props/C01.v: rollback mode, either saving mode, nobody
+(* SESSION HALF (session-core model, coq/P2P.v; space of props/C01.v: rollback mode with either saving mode or lockstep, nobody
    disconnects, no delay change): after ANY run, however long, every input queue holds between 0 and
    INPUT_QUEUE_LENGTH inputs, outgoing_local_inputs is empty between calls, and (OB) every frame a local player's
    queue holds has been handed to the remote endpoints - nothing accumulates in the session's own buffers. *)
@@ -138,7 +138,7 @@ Theorem C18_session_buffers_bounded :
   forall (predict : Z -> Z), (forall x, predict (predict x) = predict x) -> predict 0 = 0 ->
   forall (sparse : bool) (ops : list Session.sop) (n w d : Z) (kinds : list P2P.pkind) (eps : list (list Z)) (nspec : nat)
          (p : P2P.p2p) (outs : list (P2P.pout * P2P.apires)),
-  1 <= w -> 0 <= d -> w + d + 3 <= INPUT_QUEUE_LENGTH -> 0 < n -> Z.of_nat (length kinds) = n -> SessionProgress.players_only kinds ->
+  SessionSystem.mode_ok sparse w d -> 0 <= d -> 0 < n -> Z.of_nat (length kinds) = n -> SessionProgress.players_only kinds ->
   SessionProgress.srun_in predict (Session.session_start n w sparse d kinds eps nspec) ops = Ok (p, outs) ->
   Forall (fun q => 0 <= Queue.q_length q <= INPUT_QUEUE_LENGTH) (Sync.s_queues (P2P.ps_sync p)) /\
   (P2P.ps_remotes p <> [] -> P2P.local_handles p <> [] -> P2P.ps_outgoing p = []) /\
